@@ -83,6 +83,14 @@ JSON_OPS = ["delete", "null", "wrongtype", "badenum", "empty", "toolong", "forbi
 # out of the representable range at parse time (huge year/day counts are accepted by relativedelta and only fail when written:
 # that is C06's known finding about fields >= 2^53, not a reader matter)
 HUGE = ["PT" + "9" * 400 + "S", "-PT" + "9" * 400 + ".5S"]
+# (value type, literal): lexically fine, but outside (or at the very edge of) what the type / its Python class can hold
+OUT_OF_RANGE = [("xs:duration", h) for h in HUGE] + [
+    ("xs:float", "3.5e38"), ("xs:float", "-2.5E+300"), ("xs:float", "1e39"), ("xs:double", "1e999"), ("xs:double", "-1E400"),
+    ("xs:int", "2147483648"), ("xs:long", "-9223372036854775809"), ("xs:short", "40000"), ("xs:byte", "-129"),
+    ("xs:unsignedByte", "256"), ("xs:unsignedLong", "18446744073709551616"), ("xs:positiveInteger", "0"),
+    ("xs:negativeInteger", "0"), ("xs:nonNegativeInteger", "-1"), ("xs:integer", "9" * 5000), ("xs:decimal", "9" * 5000 + ".5"),
+    ("xs:dateTime", "9999-12-31T23:59:59.999999-14:00"), ("xs:date", "0000-01-01"), ("xs:gYear", "0000"),
+    ("xs:time", "24:00:00"), ("xs:dateTime", "2020-02-30T00:00:00"), ("xs:gMonthDay", "--02-30")]
 
 
 ORACLE_JSON_OPS = JSON_OPS + ["emptylist", "emptyobj", "dupitem"]      # judged by the oracle only (the model has no non-emptiness rules)
@@ -141,8 +149,9 @@ def damage_json(doc: dict, rng: random.Random, ops: Optional[List[str]] = None, 
                 jset(doc, path, "!!!notbase64!!!"); return op, path
             if op == "hugeliteral" and last in ("value", "min", "max") and "valueType" in jget(doc, path[:-1]):
                 # out-of-range value of a type whose lexical space is unbounded
-                jget(doc, path[:-1])["valueType"] = "xs:duration"
-                jset(doc, path, rng.choice(HUGE)); return op, path
+                vt_, lit_ = rng.choice(OUT_OF_RANGE)
+                jget(doc, path[:-1])["valueType"] = vt_
+                jset(doc, path, lit_); return op, path
     return None
 
 
@@ -426,7 +435,7 @@ def check_case(case: dict) -> Optional[C.Failing]:
             return None
         root, surface = xml_surface(root, rng)
         op = f"{op}/{surface}"
-        data = etree.tostring(root)
+        data = root.data if isinstance(root, _Raw) else etree.tostring(root)
         path = []
         from basyx.aas.adapter.xml import read_aas_xml_file
         reader = lambda fs: list(read_aas_xml_file(io.BytesIO(data), failsafe=fs))  # noqa: E731
@@ -477,12 +486,30 @@ XML_OPS = ["delete", "emptytext", "badtext", "unknowntag", "toolong", "wronglist
 AASNS = "https://admin-shell.io/aas/3/0"
 
 
+class _Raw:
+    """a document that has to be handed over as bytes (it carries a DOCTYPE)"""
+    def __init__(self, data: bytes):
+        self.data = data
+
+
 def xml_surface(root, rng: random.Random):
     """the same infoset in another surface form: the AAS namespace bound as the default namespace or to another prefix"""
     from lxml import etree
-    how = rng.choice(["aas", "aas", "default", "other"])
+    how = rng.choice(["aas", "aas", "default", "other", "entity"])
     if how == "aas":
         return root, how
+    if how == "entity":
+        # an internal general entity stands for (part of) one text: the same infoset, nothing is damaged by it
+        leaves = [e for e in root.iter() if isinstance(e.tag, str) and len(e) == 0 and e.text and "\r" not in e.text and "]]>" not in e.text]
+        if not leaves:
+            return root, "aas"
+        tgt = leaves[rng.randrange(len(leaves))]
+        text = tgt.text
+        tgt.text = "@@VFENT@@"
+        raw = etree.tostring(root, encoding="unicode")
+        esc = "".join(f"&#x{ord(ch):X};" for ch in text)
+        data = ('<?xml version="1.0"?><!DOCTYPE x [<!ENTITY vf "' + esc + '">]>' + raw.replace("@@VFENT@@", "&vf;")).encode("utf-8")
+        return _Raw(data), how
     new = etree.Element(root.tag, nsmap={None if how == "default" else "x": AASNS})
     for ch in list(root):
         new.append(ch)
@@ -555,7 +582,7 @@ def damage_xml(objs, rng: random.Random, sweep=None):
         if op == "hugeliteral":
             vt = e.getparent().find(ns + "valueType")
             if etree.QName(e).localname in ("value", "min", "max") and vt is not None and len(e) == 0:
-                vt.text = "xs:duration"; e.text = rng.choice(HUGE); return root, damaged_id, op
+                vt.text, e.text = rng.choice(OUT_OF_RANGE); return root, damaged_id, op
             continue
         if op == "delete":
             e.getparent().remove(e); return root, damaged_id, op
